@@ -235,6 +235,21 @@ pub fn run(ctx: &Ctx) -> Result<Evidence, String> {
             }
         }
     }
+    // long names that are plain except for one or two special characters (100..600 bytes; a lone
+    // backslash, quote, control, escape look-alike or multi-byte character at a random offset)
+    {
+        let names = gen::sparse_long_names(&mut rng);
+        for chunk in names.chunks(16) {
+            let members: Vec<(String, J)> = chunk.iter().enumerate().map(|(k, n)| (n.clone(), if k % 2 == 0 { J::Arr(vec![J::int(k as i64), J::Null]) } else { J::Obj(vec![(n.clone(), J::int(k as i64))]) })).collect();
+            let di = bdocs.len();
+            bdocs.push(Doc::new(&J::Obj(members)));
+            for q in ["$.*", "$..*", "$[?@]", "$.*.*", "$..[0]"] {
+                if let Some(ast) = analyze(q).ast {
+                    bcases.push((di, Route { kind: "sparse-long-names", query: ast, spelling: Spelling::canonical() }));
+                }
+            }
+        }
+    }
     let n_bound = bcases.len();
     // random part: random queries over random documents with hostile keys
     let mut dcfg = gen::DocCfg::default();
